@@ -195,6 +195,14 @@ def _writes(rng, case, n_extra=2):
     if n_extra > 2:
         ws.append(dict(mode=1, idx=[i for i in perm if rng.random() < 0.6] + [perm[0]] * (n > 1), how='list'))   # with a repeat
         ws.append(dict(mode=2, k=rng.choice(_ks(rng, case, 6))))
+    # multi-step use of the written object: columns read before the write, the interval call before the write, and
+    # all columns read after it in another order
+    for j, w in enumerate(ws):
+        if w['mode'] == 2:
+            continue
+        w['pre'] = rng.sample(range(9), rng.choice([0, 1, 1, 2, 3, 9]))
+        w['order'] = rng.sample(range(9), 9)
+        w['iv_first'] = (j % 2 == 0)
     return ws
 
 
@@ -217,6 +225,7 @@ def _mk(rng, refs, recs, container=None, ks=6, n_writes=2, text=None):
     case['container'] = container
     case['ks'] = _ks(rng, case, ks)
     case['writes'] = _writes(rng, case, n_writes)
+    case['order'] = rng.sample(range(9), 9)
     return case
 
 
@@ -285,15 +294,29 @@ def _lists(v):
     return [[int(x) for x in row] for row in v.tolist()]
 
 
-def _recs(e):
+FIELDS = [('chromosome', _strs), ('name', _strs), ('flag', _ints), ('position', _ints), ('mapq', _ints),
+          ('cigar_op', _strs), ('cigar_length', _lists), ('sequence', _strs),
+          ('quality', lambda v: [bytes(r).hex() for r in _lists(v)])]
+
+
+def _recs(e, order=None):
+    """all nine columns of e as per-record lists; the columns are ACCESSED in `order` (a permutation of 0..8)"""
     n = len(e)
     if n == 0:
         return []
-    cols = [_col(e, n, 'chromosome', _strs), _col(e, n, 'name', _strs), _col(e, n, 'flag', _ints),
-            _col(e, n, 'position', _ints), _col(e, n, 'mapq', _ints), _col(e, n, 'cigar_op', _strs),
-            _col(e, n, 'cigar_length', _lists), _col(e, n, 'sequence', _strs),
-            _col(e, n, 'quality', lambda v: [bytes(r).hex() for r in _lists(v)])]
+    cols = [None] * 9
+    for j in (order or range(9)):
+        cols[j] = _col(e, n, FIELDS[j][0], FIELDS[j][1])
     return [list(t) for t in zip(*cols)]
+
+
+def _touch(e, fields):
+    """read some columns (and drop the result): state that later steps must not depend on"""
+    for j in fields:
+        try:
+            FIELDS[j][1](getattr(e, FIELDS[j][0]))
+        except Exception:
+            pass
 
 
 def _strand(v):
@@ -334,18 +357,36 @@ def observe(case):
             out['whole'] = _recs(e)
         except Exception as ex:
             return dict(error=_err(ex))
+        order = case.get('order')
         try:
-            out['ivs'] = _ivs(bnp.open(p, buffer_type=BamIntervalBuffer).read())
+            ivo = bnp.open(p, buffer_type=BamIntervalBuffer).read()
+            out['ivs'] = _ivs(ivo)
+            if _ivs(ivo) != out['ivs']:            # the same interval object read twice
+                out['ivs'] = 'error:unstable: a second read of the same intervals differs'
         except Exception as ex:
             out['ivs'] = _err(ex)
         try:
             out['ivs2'] = _ivs(bnp.alignments.alignment_to_interval(e)) if len(e) else []
+            if len(e) and _ivs(bnp.alignments.alignment_to_interval(e)) != out['ivs2']:     # second call, same entries
+                out['ivs2'] = 'error:unstable: a second alignment_to_interval on the same entries differs'
         except Exception as ex:
             out['ivs2'] = _err(ex)
+        # the SAME entries again, after the interval calls (columns accessed in another order)
+        try:
+            out['after_iv'] = _recs(e, order)
+        except Exception as ex:
+            out['after_iv'] = _err(ex)
         ch = []
-        for k in case['ks']:
+        for kn, k in enumerate(case['ks']):
             try:
-                chunks = [_recs(c) for c in bnp.open(p).read_chunks(k)]
+                chunks = []
+                for c in bnp.open(p).read_chunks(k):
+                    if kn % 2 == 1 and len(c):       # every other chunk size: interval call first, then the records
+                        try:
+                            bnp.alignments.alignment_to_interval(c)
+                        except Exception:
+                            pass
+                    chunks.append(_recs(c, order if kn % 2 else None))
                 ch.append([k, [len(c) for c in chunks], [r for c in chunks for r in c]])
             except Exception as ex:
                 ch.append([k, _err(ex)])
@@ -366,10 +407,23 @@ def observe(case):
                         obj = src[np.array(w['idx'], dtype=int)]
                 else:
                     obj = bnp.open(p).read_chunks(w['k'])
+                if w['mode'] != 2:
+                    _touch(obj, w.get('pre', []))                      # some columns read BEFORE the write
+                    if w.get('iv_first') and len(obj):
+                        try:
+                            bnp.alignments.alignment_to_interval(obj)  # interval call on the object that is then written
+                        except Exception:
+                            pass
                 with bnp.open(q, 'w') as f:
                     f.write(obj)
                 raw = open(q, 'rb').read()
-                ws.append(dict(eof=raw.endswith(EOF_MARKER), stream=gzip.decompress(raw).hex(), reread=_recs(bnp.open(q).read())))
+                wo = dict(eof=raw.endswith(EOF_MARKER), stream=gzip.decompress(raw).hex(), reread=_recs(bnp.open(q).read()))
+                if w['mode'] != 2:
+                    try:
+                        wo['post'] = _recs(obj, w.get('order'))        # the written object's columns AFTER the write
+                    except Exception as ex:
+                        wo['post'] = _err(ex)
+                ws.append(wo)
             except Exception as ex:
                 ws.append(dict(error=_err(ex)))
         out['writes'] = ws
@@ -434,10 +488,17 @@ def _brec(r):
                 hx(bytes(r['seq'])), hx(bytes(r['qual'])), cz(r['nref']), cz(r['npos']), cz(r['tlen']), hx(bytes.fromhex(r['tags']))))
 
 
+def _after_iv(o, whole):
+    a = o.get('after_iv', whole)
+    if not isinstance(a, list):
+        a = [BAD_OREC]
+    return 'w' if a == whole else _orecs(a)
+
+
 def to_coq(case, o):
     n = len(case['recs'])
     if 'error' in o:
-        o = dict(whole=[BAD_OREC] * max(n, 1), ivs='error', ivs2='error', chunked=[], writes=[])
+        o = dict(whole=[BAD_OREC] * max(n, 1), ivs='error', ivs2='error', after_iv=[BAD_OREC], chunked=[], writes=[])
     whole = o['whole']
     chunked = []
     for c in o['chunked']:
@@ -449,15 +510,21 @@ def to_coq(case, o):
     for w, wo in zip(case['writes'], o['writes']):
         idx = list(range(n)) if w['mode'] != 1 else w['idx']
         if 'error' in wo:
-            wo = dict(eof=False, stream='', reread=[BAD_OREC])
-        writes.append('{| w_mode := %s; w_k := %s; w_idx := %s; w_eof := %s; w_stream := %s; w_reread := %s |}' % (
-            cz(w['mode']), cz(w.get('k', 0)), zl(idx), cbool(wo['eof']), hx(bytes.fromhex(wo['stream'])),
-            'w' if wo['reread'] == whole else _orecs(wo['reread'])))
+            wo = dict(eof=False, stream='', reread=[BAD_OREC], post=[BAD_OREC])
+        post = wo.get('post', whole)           # a stream write has no object to look at afterwards: the source's read
+        if not isinstance(post, list):
+            post = [BAD_OREC]
+        rr = 'w' if wo['reread'] == whole else _orecs(wo['reread'])
+        pp = 'w' if post == whole else ('r' if post == wo['reread'] else _orecs(post))
+        writes.append('(let r := %s in {| w_mode := %s; w_k := %s; w_idx := %s; w_eof := %s; w_stream := %s; w_reread := r; '
+                      'w_post := %s |})' % (rr, cz(w['mode']), cz(w.get('k', 0)), zl(idx), cbool(wo['eof']),
+                                            hx(bytes.fromhex(wo['stream'])), pp))
     refs = clist(['(%s, %s)' % (hx(nm.encode()), cz(l)) for nm, l in case['refs']], '(list Z * Z)')
     return ('(let w := %s in {| k_text := %s; k_refs := %s; k_recs := %s; k_stream := %s; k_whole := w; k_ivs := %s; '
-            'k_ivs2 := %s; k_chunked := %s; k_writes := %s |})' % (
+            'k_ivs2 := %s; k_after_iv := %s; k_chunked := %s; k_writes := %s |})' % (
                 _orecs(whole), hx(bytes.fromhex(case['text'])), refs, clist([_brec(r) for r in case['recs']], 'brec'),
                 hx(stream_bytes(case)), _oivs(o['ivs'], n), ('(Some %s)' % _oivs(o['ivs2'], n)) if isinstance(o['ivs2'], list) else '(@None (list oiv))',
+                _after_iv(o, whole),
                 clist(chunked, '(Z * list Z * list orec)'), clist(writes, 'wobs')))
 
 
